@@ -4,7 +4,7 @@
 //!
 //! job line:  P=<0-5> [seed=<u64>|hex=<bytes>] [min=<n>] [max=<n>] [mut=a,b,..] [rate=<f64>]
 //!            [unsafe=1] [ext=1] [buffer=1] [calls=<spec>;<spec>..]
-//!   calls spec: seed | hex:<bytes> | reset      (default: one call using seed/hex)
+//!   calls spec: seed | hex:<bytes> | reset | fresh:<bytes> | freshseed   (fresh*: same call on a NEW generator with the same config)
 //! output line: ok <hex>[,<hex>...]   or   err <message>   or   panic
 use pickle_fuzzer::{Generator, MutatorKind, Version};
 use std::io::{BufRead, Write};
@@ -42,23 +42,27 @@ fn run(line: &str) -> Result<Vec<Vec<u8>>, String> {
             _ => return Err(format!("unknown key {}", k)),
         }
     }
-    let version = Version::try_from(p).map_err(|e| e.to_string())?;
-    let mut g = Generator::new(version);
-    if let Some(s) = seed { g = g.with_seed(s); }
-    if let Some(m) = min { g = g.with_min_opcodes(m); }
-    if let Some(m) = max { g = g.with_max_opcodes(m); }
-    if let Some(r) = rate { g = g.with_mutation_rate(r); }
-    g = g.with_unsafe_mutations(uns).with_ext_opcodes(ext).with_buffer_opcodes(buf);
-    for m in &muts {
-        let kind = match m.as_str() {
-            "bitflip" => MutatorKind::Bitflip, "boundary" => MutatorKind::Boundary,
-            "offbyone" => MutatorKind::Offbyone, "stringlen" => MutatorKind::Stringlen,
-            "character" => MutatorKind::Character, "memoindex" => MutatorKind::Memoindex,
-            "typeconfusion" => MutatorKind::Typeconfusion,
-            _ => return Err(format!("unknown mutator {}", m)),
-        };
-        g = g.with_mutator(kind.create(uns));
-    }
+    let make = || -> Result<Generator, String> {
+        let version = Version::try_from(p).map_err(|e| e.to_string())?;
+        let mut g = Generator::new(version);
+        if let Some(s) = seed { g = g.with_seed(s); }
+        if let Some(m) = min { g = g.with_min_opcodes(m); }
+        if let Some(m) = max { g = g.with_max_opcodes(m); }
+        if let Some(r) = rate { g = g.with_mutation_rate(r); }
+        g = g.with_unsafe_mutations(uns).with_ext_opcodes(ext).with_buffer_opcodes(buf);
+        for m in &muts {
+            let kind = match m.as_str() {
+                "bitflip" => MutatorKind::Bitflip, "boundary" => MutatorKind::Boundary,
+                "offbyone" => MutatorKind::Offbyone, "stringlen" => MutatorKind::Stringlen,
+                "character" => MutatorKind::Character, "memoindex" => MutatorKind::Memoindex,
+                "typeconfusion" => MutatorKind::Typeconfusion,
+                _ => return Err(format!("unknown mutator {}", m)),
+            };
+            g = g.with_mutator(kind.create(uns));
+        }
+        Ok(g)
+    };
+    let mut g = make()?;
     if calls.is_empty() {
         calls.push(if bytes.is_some() { "hex".to_string() } else { "seed".to_string() });
     }
@@ -70,6 +74,13 @@ fn run(line: &str) -> Result<Vec<Vec<u8>>, String> {
             outs.push(g.generate().map_err(|e| e.to_string())?);
         } else if c == "hex" {
             outs.push(g.generate_from_arbitrary(bytes.as_deref().unwrap_or(&[])).map_err(|e| e.to_string())?);
+        } else if let Some(h) = c.strip_prefix("fresh:") {
+            // a brand-new generator with the same configuration (reference for C08)
+            let mut f = make()?;
+            outs.push(f.generate_from_arbitrary(&unhex(h)).map_err(|e| e.to_string())?);
+        } else if c == "freshseed" {
+            let mut f = make()?;
+            outs.push(f.generate().map_err(|e| e.to_string())?);
         } else if let Some(h) = c.strip_prefix("hex:") {
             outs.push(g.generate_from_arbitrary(&unhex(h)).map_err(|e| e.to_string())?);
         } else {
